@@ -13,7 +13,7 @@ from . import common as cm
 
 NAME = "srf"
 PROPERTY = "C11"
-TIERS = {"quick": (4000, 70.0), "thorough": (120000, 1500.0)}
+TIERS = {"quick": (5000, 90.0), "thorough": (150000, 1800.0)}
 CHANGE_KINDS = {"set", "assign_model", "gen_set", "set_post", "set_generator"}
 OBSERVE_KINDS = {"gen"}
 RULE = ("one run = seeded history (3-14 ops) over one long-lived SRF and its twin: gen in a "
